@@ -427,6 +427,15 @@ func RunCampaign(env *Env, p Property, opt Options, st *Stats) (*Report, error) 
 	if opt.MaxRuns > 0 && opt.MaxRuns < n {
 		n = opt.MaxRuns
 	}
+	// the corpus: minimised cases that once convicted a seeded change (kept
+	// under /verif/corpus); they are run with every campaign, so that what was
+	// caught once stays caught whatever the generators draw
+	generated := n
+	corpus := LoadCorpus(opt.VerifDir, p.ID())
+	n += len(corpus)
+	st.mu.Lock()
+	st.Probes["corpus:cases"] = len(corpus)
+	st.mu.Unlock()
 	type hit struct {
 		c *Case
 		f Finding
@@ -450,7 +459,15 @@ func RunCampaign(env *Env, p Property, opt Options, st *Stats) (*Report, error) 
 			run := next
 			next++
 			mu.Unlock()
-			c := p.Generate(opt.Seed, run)
+			var c *Case
+			if run >= generated {
+				c = corpus[run-generated].Clone()
+				c.Run = 2_000_000 + run - generated
+				c.Seed = opt.Seed
+				c.Verdict = nil
+			} else {
+				c = p.Generate(opt.Seed, run)
+			}
 			if c == nil {
 				continue
 			}
@@ -611,6 +628,26 @@ func Minimise(env *Env, p Property, c *Case, f Finding) (*Case, error) {
 }
 
 // WriteReplay stores the minimised case under /verif/replays.
+// LoadCorpus reads /verif/corpus/<property>-*.json (replay files).
+func LoadCorpus(verifDir, prop string) []*Case {
+	names, _ := filepath.Glob(filepath.Join(verifDir, "corpus", prop+"-*.json"))
+	sort.Strings(names)
+	var out []*Case
+	for _, n := range names {
+		b, err := os.ReadFile(n)
+		if err != nil || len(b) > 1<<20 {
+			continue
+		}
+		var c Case
+		if json.Unmarshal(b, &c) != nil || c.Property != prop || len(c.Steps) == 0 {
+			continue
+		}
+		c.Labels = append(c.Labels, "corpus:"+strings.TrimSuffix(filepath.Base(n), ".json"))
+		out = append(out, &c)
+	}
+	return out
+}
+
 func WriteReplay(verifDir string, c *Case) (string, error) {
 	dir := filepath.Join(verifDir, "replays")
 	name := ""
